@@ -40,14 +40,15 @@ def tokens(text):
     return out
 
 
-def rat(tok, max_den=10 ** 6):
-    fr = Fraction(tok)
-    return [fr.numerator, fr.denominator]
+def rat(tok):
+    """value of a number token as the same small rational the state projection uses"""
+    from numsnap import snap_or_approx
+    return snap_or_approx(float(tok))
 
 
 def tag(tok, numbers=True):
     if numbers and NUM_RE.match(tok):
-        return {"t": "n", "v": rat(tok)}
+        return {"t": "n", "v": rat(tok), "x": repr(float(tok))}
     return {"t": "s", "v": tok}
 
 
